@@ -15,11 +15,11 @@ import (
 // through a binding table that is checked against the source.
 
 type lpFunc struct {
-	key  string // "Type.Method", "Type.Method$field" for closures, "Func"
-	recv string // receiver variable name
-	typ  string // receiver type name
-	body *ast.BlockStmt
-	file *ast.File
+	key   string // "Type.Method", "Type.Method$field" for closures, "Func"
+	recv  string // receiver variable name
+	typ   string // receiver type name
+	body  *ast.BlockStmt
+	file  *ast.File
 	outer *lpFunc // enclosing function for closures (receiver resolution)
 }
 
@@ -30,13 +30,13 @@ type lpEvent struct {
 }
 
 type lpCtx struct {
-	funcs   map[string]*lpFunc
-	classes map[string]int
-	names   []string
-	threads map[string]*lpFunc // goroutine bodies discovered
-	problems []string
+	funcs      map[string]*lpFunc
+	classes    map[string]int
+	names      []string
+	threads    map[string]*lpFunc // goroutine bodies discovered
+	problems   []string
 	unresolved map[string]bool // callee expressions that are neither locks nor inlined
-	inSelect int // > 0 while executing the comm statement of a select clause (its blocking is the select's)
+	inSelect   int             // > 0 while executing the comm statement of a select clause (its blocking is the select's)
 }
 
 func (c *lpCtx) classID(name string) int {
@@ -112,8 +112,8 @@ func (c *lpCtx) lockCall(f *lpFunc, ce *ast.CallExpr) (acq bool, cls string, ok 
 // callee binding table: (function key, call expression text) -> target keys.
 // Each binding is justified by an assignment the extractor checks below.
 var lpBindings = map[string]map[string][]string{
-	"virtualStreamListener.Close": {"onCloseFunc()": {"multiStreamListener.Acquire$onCloseFunc"}},
-	"virtualPacketConn.Close":     {"onCloseFunc()": {"multiPacketListener.Acquire$onCloseFunc"}},
+	"virtualStreamListener.Close":             {"onCloseFunc()": {"multiStreamListener.Acquire$onCloseFunc"}},
+	"virtualPacketConn.Close":                 {"onCloseFunc()": {"multiPacketListener.Acquire$onCloseFunc"}},
 	"multiStreamListener.Acquire$onCloseFunc": {"onCloseFunc()": {"listenerManager.ListenStream$arg1"}, "m.ln.Close()": {"TCPListener.Close"}},
 	"multiPacketListener.Acquire$onCloseFunc": {"onCloseFunc()": {"listenerManager.ListenPacket$arg1"}},
 	"listenerManager.ListenStream":            {"streamLn.Acquire()": {"multiStreamListener.Acquire"}},
